@@ -493,8 +493,8 @@ func vh_LogCrash() {
 	if err != nil {
 		return
 	}
-	vAssert(vSameEntries(l3.entries, append(vCloneEntries(base), extra)), "C12.second-reopen-entries")
-	vAssert(!vMisparsed(), "C12.framing-intact-after-second-cycle")
+	vAssert(vSameEntries(l3.entries, append(vCloneEntries(base), extra)), "C04|C12|C14|C19.second-reopen-entries")
+	vAssert(!vMisparsed(), "C04|C12|C14|C19.framing-intact-after-second-cycle")
 	// third cycle: truncate the new entry away again, append another one in its place, reopen
 	vAssert(l3.Truncate(extra.Index) == nil, "C12.truncate-after-reopen")
 	extra2 := &LogEntry{Index: extra.Index, Term: vNondetU64("again.term2")}
@@ -513,9 +513,34 @@ func vh_LogCrash() {
 	if err != nil {
 		return
 	}
-	vAssert(vSameEntries(l4.entries, append(base, extra2)), "C12.third-reopen-entries")
-	vAssert(!vMisparsed(), "C12.framing-intact-after-third-cycle")
+	vAssert(vSameEntries(l4.entries, append(vCloneEntries(base), extra2)), "C04|C12|C14|C19.third-reopen-entries")
+	vAssert(!vMisparsed(), "C04|C12|C14|C19.framing-intact-after-third-cycle")
 	vCover("second-cycle")
+	// fourth cycle: cut away a record that was written before the crash and has only ever been read back
+	// (Truncate positions the cut by the offset stored inside the record), put another in its place, reopen
+	if len(base) > 1 {
+		last := base[len(base)-1]
+		vAssert(l4.Truncate(last.Index) == nil, "C12|C14.truncate-replayed-record")
+		extra3 := &LogEntry{Index: last.Index, Term: vNondetU64("again.term3")}
+		vAssume(extra3.Term >= 1)
+		vAssert(l4.AppendEntries([]*LogEntry{extra3}) == nil, "C12|C14.append-after-truncating-replayed-record")
+		vAssert(l4.Close() == nil, "C12.close-after-fourth-cycle")
+		lg5, err := NewLog(root)
+		vAssert(err == nil, "C12|C14.fourth-reopen-newlog-succeeds")
+		if err != nil {
+			return
+		}
+		l5 := lg5.(*persistentLog)
+		vAssert(l5.Open() == nil, "C12|C14.fourth-reopen-open-succeeds")
+		err = l5.Replay()
+		vAssert(err == nil, "C12|C14.fourth-reopen-replay-succeeds")
+		if err != nil {
+			return
+		}
+		vAssert(vSameEntries(l5.entries, append(vCloneEntries(base[:len(base)-1]), extra3)), "C04|C12|C14|C19.entries-after-truncating-replayed-record")
+		vAssert(!vMisparsed(), "C04|C12|C14.framing-intact-after-truncating-replayed-record")
+		vCover("fourth-cycle")
+	}
 }
 
 // ---------------------------------------------------------------------------
